@@ -367,6 +367,15 @@ pub enum Kind {
     TimerFire {
         id: u64,
     },
+    /// the components of a deadline as the embedder's timer reads them through the accessors
+    /// (`checked_to_system_time`, `checked_to_instant`) and through `destructure`
+    TimerParts {
+        id: u64,
+        destructure: TimeRec,
+        accessors: TimeRec,
+    },
+    /// the library takes the apps of the shared app set for writing (load at start, update from a response)
+    AppSetWrite,
     /// a task of the embedder changed an app's cohort hint in the shared app set
     NeighbourMutate {
         app: String,
